@@ -71,9 +71,8 @@ Example::
 
 import functools
 import itertools
-import os.path
+import posixpath
 import urllib.parse
-import urllib.request
 import xml.dom
 
 from . import css, errorhandler, stylesheets
@@ -285,22 +284,29 @@ class Replacer:
     """
 
     def __init__(self, base):
+        self.href = base
         self.base = self.extract_base(base)
 
     def __call__(self, uri):
         scheme, location, path, query, fragment = urllib.parse.urlsplit(uri)
-        if scheme or location or path.startswith('/'):
-            # keep anything absolute
+        if scheme or location or path.startswith('/') or not path:
+            # keep anything absolute (and references to the document itself)
             return uri
 
-        path, filename = os.path.split(path)
-        combined = os.path.normpath(os.path.join(self.base, path, filename))
-        return urllib.request.pathname2url(combined)
+        scheme, location = urllib.parse.urlsplit(self.href)[:2]
+        if scheme or location:
+            # imported from another location, only an absolute URL points there
+            return urllib.parse.urljoin(self.href, uri)
+
+        combined = posixpath.normpath(posixpath.join(self.base, path))
+        if path.endswith('/'):
+            combined += '/'
+        return urllib.parse.urlunsplit(('', '', combined, query, fragment))
 
     @staticmethod
     def extract_base(uri):
         _, _, raw_path, _, _ = urllib.parse.urlsplit(uri)
-        base_path, _ = os.path.split(raw_path)
+        base_path, _ = posixpath.split(raw_path)
         return base_path
 
 
